@@ -183,3 +183,18 @@ Lemma lxor_pair_bits idx a b k :
   N.testbit (N.lxor idx (N.lor (2 ^ a) (2 ^ b))) k =
   xorb (N.testbit idx k) (N.eqb a k || N.eqb b k).
 Proof. rewrite N.lxor_spec, N.lor_spec, !pow2_bits. reflexivity. Qed.
+
+Lemma clearbit_clearbit i b : N.clearbit (N.clearbit i b) b = N.clearbit i b.
+Proof. apply clearbit_id. apply N.clearbit_eq. Qed.
+Lemma setbit_setbit i b : N.setbit (N.setbit i b) b = N.setbit i b.
+Proof. apply setbit_id. apply N.setbit_eq. Qed.
+Lemma setbit_clearbit i b : N.setbit (N.clearbit i b) b = N.setbit i b.
+Proof.
+  apply N.bits_inj. intro k. rewrite !testbit_setbit, testbit_clearbit.
+  destruct (N.eqb_spec b k); [rewrite !orb_true_r; reflexivity|]. cbn [negb]. rewrite andb_true_r. reflexivity.
+Qed.
+Lemma clearbit_setbit i b : N.clearbit (N.setbit i b) b = N.clearbit i b.
+Proof.
+  apply N.bits_inj. intro k. rewrite !testbit_clearbit, testbit_setbit.
+  destruct (N.eqb_spec b k); [cbn [negb]; rewrite !andb_false_r; reflexivity|]. rewrite orb_false_r. reflexivity.
+Qed.
